@@ -25,6 +25,10 @@ func C06Scenario() *Scenario {
 			}
 		})
 		perturbations := []string{"equal", "owned-drift", "owned-removed", "foreign-drift", "status-drift", "foreign-label", "pending-deletion", "undesired", "desired-change"}
+		// a field somebody else set on a child, which the hook then starts to return with the
+		// very same value, and later drops: from the moment it returned it the field is the
+		// hook's, so dropping it must remove it
+		perturbations = append(perturbations, "adopt-then-drop")
 		if s.Cfg.Finalize {
 			// the parent is deleted; the finalize hook drops every child
 			perturbations = append(perturbations, "parent-finalizing", "parent-finalizing")
@@ -105,14 +109,48 @@ func C06Scenario() *Scenario {
 						EditObject(w, p.Res, p.NS, p.Name, "user", func(o Object) { setPath(o, "changed", "spec", "template", "color") })
 					case "parent-finalizing":
 						w.Store.Delete(p.Res, p.NS, p.Name, DeleteOpts{Propagation: "Background"}, "user")
+					case "adopt-then-drop":
+						EditObject(w, res, target.ns, target.name, "user", func(o Object) { setPath(o, "someone-elses", f, "foreign") })
 					}
 				},
 				Check: func(w *World) *Violation {
 					if pert == "none-possible" {
 						return nil
 					}
+					if pert == "adopt-then-drop" {
+						// so far a foreign field was set: no write is expected, as for foreign-drift
+						return c06Check(w, s, p, target, "foreign-drift", pertStep, rule())
+					}
 					return c06Check(w, s, p, target, pert, pertStep, rule())
 				}},
+		}
+		if pert == "adopt-then-drop" {
+			w.Stages = append(w.Stages,
+				Stage{Name: "adopt", Quiet: true, MaxSteps: 3000, Do: func(w *World) {
+					EditObject(w, p.Res, p.NS, p.Name, "user", func(o Object) { setPath(o, "someone-elses", "spec", "template", "foreign") })
+				}},
+				Stage{Name: "drop", Quiet: true, MaxSteps: 3000, Do: func(w *World) {
+					EditObject(w, p.Res, p.NS, p.Name, "user", func(o Object) { delete(getMap(o, "spec", "template"), "foreign") })
+				}, Check: func(w *World) *Violation {
+					if pert == "none-possible" {
+						return nil
+					}
+					po := p.Get(w)
+					for _, cr := range s.Cfg.Children {
+						switch cr.Method {
+						case "InPlace", "RollingInPlace", "Recreate", "RollingRecreate":
+						default:
+							continue
+						}
+						for _, c := range ControlledBy(w.Store, cr.Res, mstr(po, "uid")) {
+							if v, has := getMap(c, childContentField(cr.Res))["foreign"]; has {
+								return &Violation{Prop: "C06", Class: "dropped-field-not-removed", Sig: map[string]string{"controller": "composite", "method": cr.Method, "perturbation": pert},
+									Detail: fmt.Sprintf("method %q: %s %s/%s still has %s.foreign = %v at rest, although the hook returned that field for a while and then stopped returning it", cr.Method, cr.Res.Kind, mstr(c, "namespace"), mstr(c, "name"), childContentField(cr.Res), v)}
+							}
+						}
+					}
+					return nil
+				}})
 		}
 	}}
 }
